@@ -10,10 +10,17 @@ import (
 
 	"github.com/ava-labs/avalanchego/ids"
 	"github.com/ava-labs/avalanchego/snow/engine/common"
+	"github.com/ava-labs/avalanchego/utils/units"
+
+	"github.com/ava-labs/hypersdk/consts"
 )
 
 // maxProcessingDuration of the request
 const maxProcessingDuration = 50 * time.Millisecond
+
+// maxResponseBytes bounds the blocks packed into one response: a p2p message above the network's
+// size limit cannot be sent at all, and the requester would time out and ask for the same range again.
+const maxResponseBytes = consts.NetworkSizeLimit - 128*units.KiB
 
 const (
 	ErrCodeUnmarshal = iota + 1
@@ -88,9 +95,10 @@ func (b *BlockFetcherHandler[T]) fetchBlocks(ctx context.Context, request *Block
 	defer cancel()
 
 	var (
-		blocks       [][]byte
-		height       = request.BlockHeight
-		minTimestamp = request.MinTimestamp
+		blocks        [][]byte
+		responseBytes int
+		height        = request.BlockHeight
+		minTimestamp  = request.MinTimestamp
 	)
 
 	for {
@@ -104,7 +112,13 @@ func (b *BlockFetcherHandler[T]) fetchBlocks(ctx context.Context, request *Block
 			return blocks, nil
 		}
 
-		blocks = append(blocks, block.GetBytes())
+		// always serve at least one block, then stop before exceeding the byte budget
+		blockBytes := block.GetBytes()
+		if len(blocks) > 0 && responseBytes+len(blockBytes) > maxResponseBytes {
+			return blocks, nil
+		}
+		responseBytes += len(blockBytes)
+		blocks = append(blocks, blockBytes)
 		height--
 
 		if height == 0 ||
